@@ -32,13 +32,22 @@ static void c06_init(void) {
 }
 __attribute__((constructor)) static void c06_ctor(void) { c06_init(); }
 
+/* the worker may run with a small RLIMIT_FSIZE (induced write failures): the log is not part of
+   the experiment, so the soft limit is lifted around the log write and put back */
+struct c06_rl { unsigned long long cur, max; };
 static void fl(void) {
   size_t o = 0;
+  struct c06_rl old, hi; int changed = 0;
+  if (syscall(SYS_prlimit64, 0, 1 /* RLIMIT_FSIZE */, (void *)0, &old) == 0 && old.cur != ~0ULL) {
+    hi = old; hi.cur = old.max;
+    if (syscall(SYS_prlimit64, 0, 1, &hi, (void *)0) == 0) changed = 1;
+  }
   while (o < bn) {
     long r = syscall(SYS_write, logfd, buf + o, bn - o);
     if (r <= 0) { if (r < 0 && errno == EINTR) continue; break; }
     o += (size_t)r;
   }
+  if (changed) syscall(SYS_prlimit64, 0, 1, &old, (void *)0);
   bn = 0;
 }
 static void pc(char c) { if (bn == sizeof buf) fl(); buf[bn++] = c; }
